@@ -609,4 +609,285 @@ theorem k_ean8Encode_eq (s : List Nat) (hs : ∀ b ∈ s, b < 256) :
 example : Gen.K03w.ean8Encode (bytes [49, 50, 51, 52, 53, 54, 55]) = encRes (ean8Modules refTables [49, 50, 51, 52, 53, 54, 55]) :=
   k_ean8Encode_eq _ (by decide)
 
+/-! ## EAN-13 (and the left half shared with UPC-E): L / G patterns chosen by a parity word -/
+
+/-- the parity test `(parities >> uint(6-i)) & 1 == 1` of the writers -/
+theorem parity_bit (p i : Nat) (hi : i ≤ 6) :
+    ((GoVal.iand (GoVal.ishr (p : Int) (wrap 64 (6 - (i : Int)))) 1) == 1) = decide ((p / 2 ^ (6 - i)) % 2 = 1) := by
+  have e : wrap 64 (6 - (i : Int)) = ((6 - i : Nat) : Int) := by
+    rw [wrap_of_lt 64 _ (by omega) (by have : ((2 : Int) ^ 64) = 18446744073709551616 := by decide
+                                       omega)]
+    omega
+  have one : (1 : Int) = ((1 : Nat) : Int) := rfl
+  rw [e, ishr_natCast, one, iand_natCast, Nat.shiftRight_eq_div_pow, Nat.and_one_is_mod]
+  by_cases h : p / 2 ^ (6 - i) % 2 = 1
+  · simp [h]
+  · have : p / 2 ^ (6 - i) % 2 = 0 := by omega
+    simp [this]
+
+/-- the L-or-G pattern of the digit at position `i` under the parity word `p` -/
+def lgPat (full : List Nat) (p : Nat) (i : Nat) : List Nat :=
+  rowAt (lAndG refTables.lPatterns) (if (p / 2 ^ (6 - i)) % 2 = 1 then (full[i]?.getD 48) - 48 + 10 else (full[i]?.getD 48) - 48)
+
+theorem lgRow_sum : ∀ i, i < 20 → OneD.sumL (rowAt (lAndG refTables.lPatterns) i) = 7 := by decide
+
+theorem lgPat_sum (full : List Nat) (p : Nat) (h : allDigits full = true) (i : Nat) (hi : i < full.length) :
+    OneD.sumL (lgPat full p i) = 7 := by
+  obtain ⟨h1, h2⟩ := digit_of_all h i hi
+  unfold lgPat
+  rw [List.getElem?_eq_getElem hi]
+  simp only [Option.getD_some]
+  split <;> exact lgRow_sum _ (by omega)
+
+/-- the run-time table `UPCEANReader_L_AND_G_PATTERNS` as the model computes it (the harness compares the table
+    `init()` fills with this value) -/
+def LG : List (List Int) := rows (lAndG refTables.lPatterns)
+
+/-- one iteration of the left-half loop of the EAN-13 / UPC-E writers -/
+def IsLGStep (body : Int → (List Int × Int) → Ctl (List Int × Int) ρ) (full : List Nat) (p : Nat) : Prop :=
+  ∀ i, i ≤ 6 → i < full.length → ∀ done rest, body (i : Int) (done ++ rest, (done.length : Int)) =
+    drawn done rest (OneD.sumL (lgPat full p i)) (b01 (OneD.appendPattern (lgPat full p i) false))
+
+/-- proof of an `IsLGStep` goal after the body has been unfolded -/
+macro "lgstep_tac " full:term ", " p:term ", " h:term : tactic => `(tactic| (
+  intro i hi6 hi done rest
+  obtain ⟨h1, h2⟩ := digit_of_all $h i hi
+  rw [idx_ofNat _ _ (by simpa [bytes] using hi), bytes_getElem]
+  simp only [tryC_ok]
+  rw [wrap8_digit _ h1 h2, parity_bit _ i hi6]
+  have e10 : wrap 8 ((($full[i] - 48 : Nat) : Int) + 10) = (($full[i] - 48 + 10 : Nat) : Int) := by
+    have e8 : ((2 : Int) ^ 8) = 256 := by decide
+    simp only [wrap, e8]; omega
+  rw [e10]
+  have erow : ∀ (b : Bool), idxRow LG (if b = true then (($full[i] - 48 + 10 : Nat) : Int) else (($full[i] - 48 : Nat) : Int)) =
+      .ok ((rowAt (lAndG refTables.lPatterns) (if b = true then $full[i] - 48 + 10 else $full[i] - 48)).map Int.ofNat) := by
+    intro b
+    cases b
+    · exact idxRow_rows _ _ _ rfl (by show $full[i] - 48 < 20; omega)
+    · exact idxRow_rows _ _ _ rfl (by show $full[i] - 48 + 10 < 20; omega)
+  rw [erow]
+  simp only [tryC_ok]
+  rw [ap_at done rest _ _ false rfl]
+  have e : lgPat $full $p i = rowAt (lAndG refTables.lPatterns)
+      (if decide ($p / 2 ^ (6 - i) % 2 = 1) = true then $full[i] - 48 + 10 else $full[i] - 48) := by
+    unfold lgPat; rw [List.getElem?_eq_getElem hi]; simp
+  rw [e]
+  generalize rowAt (lAndG refTables.lPatterns)
+    (if decide ($p / 2 ^ (6 - i) % 2 = 1) = true then $full[i] - 48 + 10 else $full[i] - 48) = pat
+  unfold drawn
+  by_cases hf : OneD.sumL pat ≤ rest.length
+  · simp only [hf, if_true, tryC_ok, Int.natCast_add]
+  · simp only [hf, if_false, tryC_error]))
+
+when_kernel Gzx.Gen.K03w.ean13Encode in
+theorem ean13_left (full : List Nat) (p : Nat) (h : allDigits full = true) :
+    IsLGStep (ρ := List Int × Bool) (Gen.K03w.ean13Encode_body1 LG (bytes full) (p : Int)) full p := by
+  unfold IsLGStep
+  simp only [Gen.K03w.ean13Encode_body1]
+  lgstep_tac full, p, h
+
+when_kernel Gzx.Gen.K03w.ean13Encode in
+theorem ean13_right (full : List Nat) (h : allDigits full = true) :
+    IsLStep (ρ := List Int × Bool) (Gen.K03w.ean13Encode_body2 LG (bytes full)) full true := by
+  intro i hi done rest
+  simp only [Gen.K03w.ean13Encode_body2, tbl_L]
+  exact lstep_core full h i hi true done rest _ (fun t => rfl)
+
+when_kernel Gzx.Gen.K03w.ean13Encode in
+theorem ean13_same : @Gen.K03w.ean13Encode_body3 = @Gen.K03w.ean13Encode_body1 ∧
+    @Gen.K03w.ean13Encode_body4 = @Gen.K03w.ean13Encode_body2 := ⟨rfl, rfl⟩
+
+when_kernel Gzx.Gen.K03w.ean13Encode in
+theorem tbl_FD : Gen.K03w.tbl_ean13Reader_FIRST_DIGIT_ENCODINGS = refTables.firstDigit.map Int.ofNat := by decide
+
+/-- the parity word of a digit string's first digit -/
+def parityOf (full : List Nat) : Nat := (refTables.firstDigit[(full[0]?.getD 48) - 48]?).getD 0
+
+/-- the modules of a complete 13-digit string -/
+def draw13 (full : List Nat) : List Bool :=
+  OneD.appendPattern refTables.startEnd true ++ segM (lgPat full (parityOf full)) false 1 6 ++
+    OneD.appendPattern refTables.middle false ++ segM (lPat full) true 7 6 ++ OneD.appendPattern refTables.startEnd true
+
+theorem nth_digitVals (full : List Nat) (i : Nat) (hi : i < full.length) : nth (digitVals full) i = .ok (full[i] - 48) := by
+  unfold nth digitVals; simp [hi]
+
+theorem leftHalf_eq (full : List Nat) (p : Nat) (hl : 7 ≤ full.length) (hd : allDigits full = true) :
+    leftHalf refTables (digitVals full) p = .ok (segM (lgPat full p) false 1 6) := by
+  have key : (List.range 6).mapM (fun j => do
+      let d ← nth (digitVals full) (j + 1)
+      nth (lAndG refTables.lPatterns) (if (p / 2 ^ (5 - j)) % 2 = 1 then d + 10 else d)) =
+        .ok ((List.range' 0 6).map (fun j => lgPat full p (j + 1))) := by
+    rw [List.range_eq_range', mapM_range'_ok _ (fun j => lgPat full p (j + 1)) 6 0]
+    intro i _ hi
+    have hi' : i + 1 < full.length := by omega
+    obtain ⟨h1, h2⟩ := digit_of_all hd (i + 1) hi'
+    rw [nth_digitVals full (i + 1) hi']
+    show nth (lAndG refTables.lPatterns) (if (p / 2 ^ (5 - i)) % 2 = 1 then full[i + 1] - 48 + 10 else full[i + 1] - 48) = _
+    have e56 : 6 - (i + 1) = 5 - i := by omega
+    unfold lgPat
+    rw [List.getElem?_eq_getElem hi', e56]
+    simp only [Option.getD_some]
+    split
+    · exact nth_rowAt _ _ (by show full[i + 1] - 48 + 10 < 20; omega)
+    · exact nth_rowAt _ _ (by show full[i + 1] - 48 < 20; omega)
+  unfold leftHalf
+  simp only [bind, Except.bind, pure, Except.pure] at key ⊢
+  simp only [key, segM, List.map_map]
+  rfl
+
+theorem ean13Modules_of_contents (s full : List Nat) (hc : stdWriterContents 13 s = .ok full) (hl : full.length = 13)
+    (hd : allDigits full = true) : ean13Modules refTables s = .ok (draw13 full) := by
+  have kr : (List.range 6).mapM (fun j => do
+      let d ← nth (digitVals full) (j + 7); nth refTables.lPatterns d) = .ok ((List.range' 7 6).map (lPat full)) := by
+    have : (List.range 6).mapM (fun j => do
+        let d ← nth (digitVals full) (j + 7); nth refTables.lPatterns d) =
+          .ok ((List.range' 0 6).map (fun j => lPat full (j + 7))) := by
+      rw [List.range_eq_range', mapM_range'_ok _ (fun j => lPat full (j + 7)) 6 0]
+      intro i _ hi
+      have hi' : i + 7 < full.length := by omega
+      obtain ⟨h1, h2⟩ := digit_of_all hd (i + 7) hi'
+      rw [nth_digitVals full (i + 7) hi']
+      show nth refTables.lPatterns (full[i + 7] - 48) = _
+      rw [nth_rowAt _ _ (by show full[i + 7] - 48 < 10; omega)]
+      unfold lPat; rw [List.getElem?_eq_getElem hi']; rfl
+    exact this
+  have h0 : 0 < full.length := by omega
+  obtain ⟨h1, h2⟩ := digit_of_all hd 0 h0
+  have ef : nth refTables.firstDigit (full[0] - 48) = .ok (parityOf full) := by
+    unfold nth parityOf
+    rw [List.getElem?_eq_getElem h0]
+    have : full[0] - 48 < refTables.firstDigit.length := by show full[0] - 48 < 10; omega
+    simp [this]
+  unfold ean13Modules
+  rw [hc]
+  simp only [bind, Except.bind, pure, Except.pure] at kr ⊢
+  simp only [nth_digitVals full 0 h0, ef, leftHalf_eq full _ (by omega) hd, kr, draw13, segM, List.map_map]
+  rfl
+
+theorem fd_idx (full : List Nat) (hd : allDigits full = true) (h0 : 0 < full.length) :
+    idx (refTables.firstDigit.map Int.ofNat) ((full[0] - 48 : Nat) : Int) = .ok ((parityOf full : Nat) : Int) := by
+  obtain ⟨h1, h2⟩ := digit_of_all hd 0 h0
+  rw [idx_bytes]
+  unfold parityOf
+  rw [List.getElem?_eq_getElem h0]
+  have : full[0] - 48 < refTables.firstDigit.length := by show full[0] - 48 < 10; omega
+  simp [this]
+
+theorem ean13Modules_err (s : List Nat) (h : stdWriterContents 13 s = .error .writer) :
+    ean13Modules refTables s = .error .writer := by
+  unfold ean13Modules; rw [h]; rfl
+
+/-- the drawing part of `ean13Encoder.encodeWithHints` on a complete digit string `full`:
+    goal `tryR (idx (bytes full) 0) … = .ok (b01 (draw13 full), false)` -/
+macro "ean13_tail " full:term ", " hd:term : tactic => `(tactic| (
+  have h0 : 0 < ($full).length := by omega
+  obtain ⟨d1, d2⟩ := digit_of_all $hd 0 h0
+  have s1 := ean13_left $full (parityOf $full) $hd
+  have s2 := ean13_right $full $hd
+  have w1 : segW (lgPat $full (parityOf $full)) 1 6 = 42 :=
+    segW_const _ 7 6 1 (fun i _ hi => lgPat_sum $full _ $hd i (by omega))
+  have w2 : segW (lPat $full) 7 6 = 42 := segW_const _ 7 6 7 (fun i _ hi => lPat_sum $full $hd i (by omega))
+  have hmk : mk (95 : Int) = .ok ([] ++ List.replicate 95 0) := by decide
+  rw [show ((0 : Int) = ((0 : Nat) : Int)) from rfl, idx_ofNat _ _ (by simpa [bytes] using h0), bytes_getElem]
+  simp only [tryR_ok]
+  rw [wrap8_digit _ d1 d2, tbl_FD, fd_idx $full $hd h0]
+  simp only [hmk, tryR_ok, tbl_SE, tbl_MID]
+  rw [ap_at [] _ _ _ true (by rfl)]
+  simp only [se_sum, List.length_replicate, Nat.reduceLeDiff, if_true, tryR_ok]
+  rw [draw_at (k := 6) (a := 1) (pats := lgPat $full (parityOf $full)) (c := false)
+    (hb := fun i _ hi => s1 i (by omega) (by omega))]
+  rotate_left
+  · decide
+  · rfl
+  · simp [b01_length, appendPattern_length, se_sum]
+  simp only [drawn, w1, List.length_drop, List.length_replicate, Nat.reduceSub, Nat.reduceLeDiff, if_true, next_thenR]
+  rw [ap_at]
+  rotate_left
+  · simp [b01_length, appendPattern_length, se_sum, segM_length, w1]
+  simp only [mid_sum, List.length_drop, List.length_replicate, Nat.reduceSub, Nat.reduceLeDiff, if_true, tryR_ok]
+  rw [draw_at (k := 6) (a := 7) (pats := lPat $full) (c := true) (hb := fun i _ hi => s2 i (by omega))]
+  rotate_left
+  · decide
+  · rfl
+  · simp [b01_length, appendPattern_length, se_sum, mid_sum, segM_length, w1]
+  simp only [drawn, w2, List.length_drop, List.length_replicate, Nat.reduceSub, Nat.reduceLeDiff, if_true, next_thenR]
+  rw [ap_at]
+  rotate_left
+  · simp [b01_length, appendPattern_length, se_sum, mid_sum, segM_length, w1, w2]
+  simp only [se_sum, List.length_drop, List.length_replicate, Nat.reduceSub, Nat.reduceLeDiff, if_true, tryR_ok]
+  simp [draw13, b01_append]))
+
+when_kernel Gzx.Gen.K03w.ean13Encode in
+/-- `ean13Encoder.encodeWithHints(contents)` for EVERY byte string, with the run-time table L_AND_G as the model computes
+    it: the model's `ean13Modules` (length switch, check digit computed for 12 / verified for 13 characters, digit test,
+    parity word of the first digit, start guard, six L/G patterns, middle guard, six L patterns, end guard) as 0/1, or a
+    WriterException -/
+theorem k_ean13Encode_eq (s : List Nat) (hs : ∀ b ∈ s, b < 256) :
+    Gen.K03w.ean13Encode LG (bytes s) = encRes (ean13Modules refTables s) := by
+  simp only [Gen.K03w.ean13Encode, len, bytes_length, ean13_same.1, ean13_same.2]
+  by_cases h13 : s.length = 13
+  · have c12 : ((s.length : Int) == 12) = false := by rw [beq_eq_false_iff_ne]; omega
+    have c13 : ((s.length : Int) == 13) = true := by rw [beq_iff_eq]; omega
+    simp only [c12, c13, Bool.false_eq_true, if_false, if_true, k_checkStandardUPCEANChecksum_eq s hs, tryR_ok,
+      k_checkNumeric_eq]
+    have hm : stdWriterContents 13 s = match checkStandardB s with
+        | .error _ => .error .writer
+        | .ok false => .error .writer
+        | .ok true => if allDigits s then .ok s else .error .writer := by
+      unfold stdWriterContents
+      simp only [h13, Nat.reduceAdd, Nat.reduceEqDiff, if_false, if_true]
+      rfl
+    cases hc : checkStandardB s with
+    | error e =>
+      rw [hc] at hm
+      simp only [ean13Modules_err s hm, encRes]; rfl
+    | ok b =>
+      rw [hc] at hm
+      cases b with
+      | false => simp only [ean13Modules_err s hm, encRes]; rfl
+      | true =>
+        by_cases hd : allDigits s = true
+        · simp only [hd, if_true] at hm
+          rw [ean13Modules_of_contents s s hm h13 hd]
+          simp only [hd, encRes, Bool.not_true, bne_self_eq_false, Bool.false_eq_true, if_false]
+          ean13_tail s, hd
+        · simp only [hd] at hm
+          simp only [ean13Modules_err s hm, encRes, hd]; rfl
+  · by_cases h12 : s.length = 12
+    · have c12 : ((s.length : Int) == 12) = true := by rw [beq_iff_eq]; omega
+      simp only [c12, if_true, k_getStandardUPCEANChecksum_eq s hs, tryR_ok]
+      have hm : stdWriterContents 13 s = match eanChecksumB s with
+          | .error _ => .error .writer
+          | .ok c => if allDigits (s ++ itoaSmall c) then .ok (s ++ itoaSmall c) else .error .writer := by
+        unfold stdWriterContents
+        simp only [h12, Nat.reduceAdd, if_true]
+        rfl
+      cases hc : eanChecksumB s with
+      | error e =>
+        rw [hc] at hm
+        simp only [ean13Modules_err s hm, encRes]; rfl
+      | ok c =>
+        rw [hc] at hm
+        obtain ⟨r1, r2⟩ := eanChecksumB_range s c hc
+        have hb : bytes s ++ itoa c = bytes (s ++ itoaSmall c) := by rw [itoa_small c r1 r2, bytes_append]
+        simp only [bne_self_eq_false, Bool.false_eq_true, if_false, hb, k_checkNumeric_eq, tryR_ok]
+        by_cases hd : allDigits (s ++ itoaSmall c) = true
+        · simp only [hd, if_true] at hm
+          have hl := full_of_check s c hc hd
+          rw [ean13Modules_of_contents s _ hm (by omega) hd]
+          simp only [hd, encRes, Bool.not_true, bne_self_eq_false, Bool.false_eq_true, if_false]
+          ean13_tail (s ++ itoaSmall c), hd
+        · simp only [hd] at hm
+          simp only [ean13Modules_err s hm, encRes, hd]; rfl
+    · have c12 : ((s.length : Int) == 12) = false := by rw [beq_eq_false_iff_ne]; omega
+      have c13 : ((s.length : Int) == 13) = false := by rw [beq_eq_false_iff_ne]; omega
+      have hm : stdWriterContents 13 s = .error .writer := by
+        unfold stdWriterContents
+        have n1 : ¬ s.length + 1 = 13 := by omega
+        simp only [n1, h13, if_false]
+      simp only [c12, c13, Bool.false_eq_true, if_false, ean13Modules_err s hm, encRes]
+
+example : Gen.K03w.ean13Encode LG (bytes (bytesOf "590123412345")) = encRes (ean13Modules refTables (bytesOf "590123412345")) :=
+  k_ean13Encode_eq _ (by decide)
+
 end Gzx.Obligations.K03w
